@@ -1,4 +1,5 @@
 //! abyverif: conformance harness binding the TLA+ specification of abyssiniandb to the crate.
+mod bfs;
 mod decode;
 mod exec;
 mod parent;
@@ -31,6 +32,14 @@ fn main() {
                     eprintln!("TOOL ERROR: {e}");
                     std::process::exit(2);
                 }
+            }
+        }
+        "bfs" => {
+            // bfs <root> <spec.json> <out_prefix> <max_states> <edges_per_file>
+            if a.len() < 7 { usage(); }
+            if let Err(e) = bfs::run(&a[2], &a[3], &a[4], a[5].parse().unwrap(), a[6].parse().unwrap()) {
+                eprintln!("TOOL ERROR: {e}");
+                std::process::exit(2);
             }
         }
         "worker" => parent::worker(&a[2], &a[3], a[4].parse().unwrap(), a[5].parse().unwrap(), a[6].parse().unwrap()),
